@@ -204,6 +204,19 @@ func Eq(a, b *Term) *Term {
 	if a.Op == "var" && b.Op == "var" && a.Name == b.Name {
 		return True
 	}
+	if a.Op != "const" && b.Op != "const" && a.Op == b.Op && a.String() == b.String() {
+		return True
+	}
+	// bv2nat is injective: compare the bit-vectors instead (bv2nat is poison for the solvers)
+	if a.Op == "bv2nat" && b.Op == "bv2nat" && a.Args[0].S == b.Args[0].S {
+		return Eq(a.Args[0], b.Args[0])
+	}
+	if a.Op == "bv2nat" && b.IsConst() {
+		return natVsConst("=", a.Args[0], b.Val)
+	}
+	if b.Op == "bv2nat" && a.IsConst() {
+		return natVsConst("=", b.Args[0], a.Val)
+	}
 	// ite(c, k1, k2) == k  with constants: simplify
 	if b.IsConst() && a.Op == "ite" && a.Args[1].IsConst() && a.Args[2].IsConst() {
 		return Ite(a.Args[0], Eq(a.Args[1], b), Eq(a.Args[2], b))
@@ -333,6 +346,9 @@ func BVCmp(op string, a, b *Term) *Term {
 	if a.S != b.S || a.S.K != KBV {
 		panic(fmt.Sprintf("term.BVCmp %s: sort mismatch %v vs %v", op, a.S, b.S))
 	}
+	if !a.IsConst() && !b.IsConst() && a.String() == b.String() {
+		return BoolConst(op[3:] == "le" || op[3:] == "ge")
+	}
 	if a.IsConst() && b.IsConst() {
 		x, y := a.Val, b.Val
 		if op[2] == 's' {
@@ -461,8 +477,56 @@ func IntBin(op string, a, b *Term) *Term {
 
 func IntNeg(a *Term) *Term { return IntBin("-", IntConstI(0), a) }
 
+// natVsConst compares bv2nat(x) with the integer constant k (op: = < <= > >=).
+func natVsConst(op string, x *Term, k *big.Int) *Term {
+	w := x.S.W
+	max := mask(w)
+	switch {
+	case k.Sign() < 0:
+		return BoolConst(op == ">" || op == ">=")
+	case k.Cmp(max) > 0:
+		return BoolConst(op == "<" || op == "<=")
+	}
+	c := BVConst(k, w)
+	switch op {
+	case "=":
+		return Eq(x, c)
+	case "<":
+		return BVCmp("bvult", x, c)
+	case "<=":
+		return BVCmp("bvule", x, c)
+	case ">":
+		return BVCmp("bvugt", x, c)
+	}
+	return BVCmp("bvuge", x, c)
+}
+
+func flipCmp(op string) string {
+	switch op {
+	case "<":
+		return ">"
+	case "<=":
+		return ">="
+	case ">":
+		return "<"
+	}
+	return "<="
+}
+
 // IntCmp: < <= > >=
 func IntCmp(op string, a, b *Term) *Term {
+	if a.Op == "bv2nat" && b.Op == "bv2nat" && a.Args[0].S == b.Args[0].S {
+		return BVCmp(map[string]string{"<": "bvult", "<=": "bvule", ">": "bvugt", ">=": "bvuge"}[op], a.Args[0], b.Args[0])
+	}
+	if a.Op == "bv2nat" && b.IsConst() {
+		return natVsConst(op, a.Args[0], b.Val)
+	}
+	if b.Op == "bv2nat" && a.IsConst() {
+		return natVsConst(flipCmp(op), b.Args[0], a.Val)
+	}
+	if !a.IsConst() && !b.IsConst() && a.String() == b.String() {
+		return BoolConst(op == "<=" || op == ">=")
+	}
 	if a.IsConst() && b.IsConst() {
 		c := a.Val.Cmp(b.Val)
 		switch op {
